@@ -771,6 +771,13 @@ class Replay:
         after = snapshot(obj, rng=False, skip=skip)
         if after == before:
             return
+        # what the caller configured (constructor parameters kept on the objects) is not a cache: a query must not rewrite it
+        for holder_q, holder_u, where in ((obj, twin, "MAB"), (getattr(obj, "_imp", None), getattr(twin, "_imp", None), "MAB._imp")):
+            for name in ("n_jobs", "backend", "seed"):
+                if holder_q is not None and hasattr(holder_u, name) and getattr(holder_q, name) != getattr(holder_u, name):
+                    self.report("readonly.config", "%s changed the configured %s.%s from %r to %r"
+                                % (op, where, name, getattr(holder_u, name), getattr(holder_q, name)), skey, label)
+                    return
         from harness.snap import copy_streams
         unqueried = copy.deepcopy(twin)
         if copy_streams(obj, unqueried):
